@@ -23,7 +23,7 @@ let str_verr = function
   | ENonDetSig -> "nondet" | EInvalidSig -> "sig" | EConflict -> "conflict"
 let str_cerr = function
   | COk -> "ok" | CBasic -> "basic" | CSize -> "size" | CHeight -> "height" | CBlockID -> "blockid"
-  | CSig -> "sig" | CPower -> "power"
+  | CSig -> "sig" | CAddr -> "addr" | CPower -> "power"
 
 let str_obs = function
   | ObVote (added, e, maj, any, all, bits) ->
